@@ -170,10 +170,10 @@ _add(PropertySpec(
 ))
 _add(PropertySpec(
     "C15", files=["render", "text"],
-    targets=["superrec2.utils.text:balanced_wrap"],
+    targets=["superrec2.utils.text:balanced_wrap", "superrec2.model.synteny:format_synteny"],
     level="exploration", standins=["tikz-text:well-formed-and-labels-faithful"],
     technique="bounded stand-in (generated TikZ text and labels checked against the clauses of the statement; balanced_wrap exhaustively on small word lists) "
               "plus contract-based deductive verification of balanced_wrap against an assumed contract of textwrap.wrap",
-    not_decided=["format_synteny, tex.escape, get_color / render colour interning, colour propagation, brace balance of the templates: NOT discharged, bounded stand-in only",
+    not_decided=["tex.escape, get_color / render colour interning, colour propagation, brace balance of the templates: NOT discharged, bounded stand-in only",
                  "textwrap.wrap(break_long_words=False) keeps the words, respects the width unless a single word is longer and fills greedily: ASSUMED (library), exercised by the stand-in"],
 ))
